@@ -66,7 +66,7 @@ class C07(Check):
             return {'mode': 'conn', 'spec': {'pops': pops, 'conns': conns}, 'ops': [],
                     'cfg': {'dt': rng.choice([1e-3, 0.01]), 'steps': rng.randint(8, 30), 'vectorize': rng.random() < 0.8}}
         spec = models.gen_aliased(rng, build=rng.choice(['python', 'python', 'yaml']), readouts=0.4 if rng.random() < 0.35 else 0.0)
-        if rng.random() < 0.35:
+        if rng.random() < (0.7 if stratum == 'S-edges' else 0.35):
             models.add_edge_templates(rng, spec, p=0.6)
         flat_nodes, flat_edges = models.flatten(spec)
         nodes = list(flat_nodes)
@@ -113,6 +113,13 @@ class C07(Check):
                                                              f"{b}/{ob}/{models.LIB[ib['lib']]['in']}",
                                                              {'weight': rng.randint(-40, 40) / 16 or 0.5}]})
                         derived = True
+                        te = [e for e in (spec.get('edges') or []) if e[2].get('et') and e[2].get('kk') is None]
+                        if te and rng.random() < 0.7:
+                            # the derived circuit's EdgeTemplate OBJECT (reached through get_edge) is edited: the circuit it was
+                            # derived from keeps its own
+                            e_ = rng.choice(te)
+                            ops.append({'op': 'edit_edge_template', 'edge': [e_[0], e_[1]], 'et': e_[2]['et'],
+                                        'val': rng.randint(2, 40) / 16})
             elif k == 'adapt' and grown:
                 continue
             elif k == 'adapt':
@@ -317,6 +324,24 @@ class C07(Check):
                 for name_, rf_ in refs.items():
                     obsv.submit(snapshot(w.objs[name_]), 'obs_both')
                     expected.append((f'after op #{k} derive: circuit {name_}', copy.deepcopy(rf_), None))
+            elif op['op'] == 'edit_edge_template':
+                if 'D' not in w.objs:
+                    continue
+                et_ = spec['ets'][op['et']]
+                try:
+                    tmpl = w.objs['D'].get_edge(op['edge'][0], op['edge'][1])[2]
+                    tmpl.update_var(et_['opname'], 'kk', op['val'])
+                except Exception as e:
+                    res['violations'].append({'law': 'L-op', 'cls': 'loud', 'key': 'edit_edge_template',
+                                              'detail': f'op #{k} get_edge(...)[2].update_var raised {type(e).__name__}: {e}'})
+                    break
+                refs['D'].spec['ets'][op['et']]['kk'] = op['val']
+                bump('edit_edge_template')
+                n_over += 1
+                for name_, rf_ in refs.items():
+                    obsv.submit(snapshot(w.objs[name_]), 'obs_both')
+                    expected.append((f'after op #{k} edit of the derived circuit\'s edge template {op["et"]}: circuit {name_}',
+                                     copy.deepcopy(rf_), None))
             elif op['op'] == 'derive_circuits':
                 specD = copy.deepcopy(spec)
                 specD['circuits'][op['as']] = copy.deepcopy(spec['circuits'][op['copy_of']])
